@@ -116,6 +116,30 @@ def tmpl_track(r, lines):
     return steps
 
 
+def tmpl_exclude_keeps(r, lines):
+    # items selected far down the list, a query that leaves few results, then an exclusion (a minor
+    # revision of the input): the selection must survive, whatever the indexes of its items
+    n = len(lines)
+    steps = []
+    for c in r.sample(['a', 'b', 'o', 'e', 'f', 'm'], 6):
+        inside = [i for i, l in enumerate(lines) if c in l.lower()]
+        if 2 <= len(inside) < n:
+            high = [i for i in range(n) if i >= len(inside)] or list(range(n))
+            for i in r.sample(high, min(len(high), r.randint(1, 3))):
+                steps.append([('pos', str(i + 1)), (r.choice(['select', 'toggle']), None)])
+            steps.append([('change-query', c)])
+            break
+    else:
+        steps.append([('last', None), ('toggle', None)])
+        steps.append([('change-query', r.choice(['a', 'o', 'e']))])
+    steps.append([(r.choice(['first', 'last', 'down', 'up']), None), (r.choice(['exclude', 'exclude', 'exclude-multi']), None)])
+    steps.append([(r.choice(['up', 'down', 'clear-query', 'toggle']), None)])
+    if r.random() < 0.5:
+        steps.append([('exclude', None)])
+    steps.append([('accept', None)])
+    return steps
+
+
 def tmpl_burst(r, lines):
     # several selections inside one action list: selection order must still be the order of the toggles
     acts = []
@@ -125,7 +149,7 @@ def tmpl_burst(r, lines):
     return [[(r.choice(['up', 'down', 'last']), None)], acts, [('accept', None)]]
 
 
-def gen_session(r, tier):
+def gen_session(r, tier, force=None):
     n = r.choice([0, 1, 2, 3, 5, 8, 12, 20, 40])
     lines = [r.choice(WORDS) + (r.choice(['', ' ', '/']) + r.choice(WORDS) if r.random() < 0.4 else '') for _ in range(n)]
     opts = dict(multi=r.choice([0, 0, 1, 2, 3, 1000]), cycle=int(r.random() < 0.35), layout=r.choice(['default', 'default', 'reverse', 'reverse-list']),
@@ -137,14 +161,22 @@ def gen_session(r, tier):
         k = 1 if r.random() < 0.8 else r.randint(2, 3)
         steps.append([gen_action(r) for _ in range(k)])
     k = r.random()
-    if k < 0.5:
-        tmpl = r.choice([tmpl_selection, tmpl_selection, tmpl_kill_ring, tmpl_kill_ring, tmpl_burst, tmpl_track, tmpl_track])
+    if k < 0.5 or force:
+        tmpl = r.choice([tmpl_selection, tmpl_selection, tmpl_kill_ring, tmpl_kill_ring, tmpl_burst, tmpl_track, tmpl_track, tmpl_exclude_keeps, tmpl_exclude_keeps])
+        if force:
+            tmpl = force
         if tmpl is tmpl_track:
             opts['track'] = 1
             if len(lines) < 5:
                 lines += [r.choice(WORDS) for _ in range(6)]
         if tmpl is not tmpl_kill_ring and opts['multi'] == 0:
             opts['multi'] = r.choice([2, 3, 1000])
+        if tmpl is tmpl_exclude_keeps:
+            opts['tac'] = 0
+            if len(lines) < 8:
+                lines += [r.choice(WORDS) for _ in range(8)]
+            if opts['multi'] < 3:
+                opts['multi'] = r.choice([3, 1000])
         if tmpl is tmpl_selection:
             opts['tac'], opts['nosort'] = 0, 0
             if opts['multi'] < 3:
@@ -244,7 +276,9 @@ def drv_sessions(tier, seed, ctx):
     from vcheck import evaluate
     n = 40 if tier == 'quick' else 600
     r = random.Random(seed * 104729 + 7)
-    scs = [gen_session(r, tier) for _ in range(n)]
+    # every directed template is used by at least three sessions of any run
+    tm = [tmpl_selection, tmpl_kill_ring, tmpl_burst, tmpl_track, tmpl_exclude_keeps]
+    scs = [gen_session(r, tier, force=tm[i % len(tm)] if i < 3 * len(tm) else None) for i in range(n)]
     notes = []
 
     def work(sc):
